@@ -30,7 +30,7 @@ NS = {name: getattr(E, name) for name in
       ["AllOf", "AnyOf", "Array", "Boolean", "Element", "Integer", "Not", "Nothing", "Null",
        "Number", "Object", "OneOf", "String"]}
 NS["Property"] = Property
-CFG = R.RCfg(depth=3, equal_to_default_kw=True)
+CFG = R.RCfg(depth=3, equal_to_default_kw=True, extreme_literals=True)
 
 
 def expected_keywords(node):
